@@ -90,6 +90,13 @@ func (partyIDs IDSlice) WriteTo(w io.Writer) (int64, error) {
 	}
 	nAll := int64(4)
 	for _, id := range partyIDs {
+		// each identifier is length-prefixed: a plain concatenation would make
+		// {"ab","c"} and {"a","bc"} indistinguishable
+		err = binary.Write(w, binary.BigEndian, uint64(len(id)))
+		if err != nil {
+			return nAll, err
+		}
+		nAll += 8
 		n, err = w.Write([]byte(id))
 		nAll += int64(n)
 		if err != nil {
